@@ -28,6 +28,9 @@ pub fn compare(ha: &History, hu: &History) -> Result<(), Violation> {
             return bad("different-op", w(format!("underlying recorded {:?}", u.tag)));
         }
         match (&a.res, &u.res) {
+            // the adaptor's clone panicked inside this operation (injected fault, caught by the caller): the
+            // operation itself is not compared, everything after it is
+            (Res::Panicked(m), _) if m == crate::hooks::INJECTED => {}
             (Res::End, Res::End) | (Res::Unit, Res::Unit) => {}
             (Res::One { idx: ia, item: xa }, Res::One { idx: iu, item: xu }) => {
                 if ia != iu {
@@ -41,9 +44,12 @@ pub fn compare(ha: &History, hu: &History) -> Result<(), Violation> {
                 }
             }
             (
-                Res::Chunk { begin: ba, announced: na, items: xa, len_ok: la, end_ok: ea, .. },
-                Res::Chunk { begin: bu, announced: nu, items: xu, len_ok: lu, end_ok: eu, .. },
+                Res::Chunk { begin: ba, announced: na, items: xa, len_ok: la, end_ok: ea, tail: ta, .. },
+                Res::Chunk { begin: bu, announced: nu, items: xu, len_ok: lu, end_ok: eu, tail: tu, .. },
             ) => {
+                if ta.len() != tu.len() || ta.iter().zip(tu.iter()).any(|((oa, x), (ou, y))| oa != ou || !same_item(x, y) || !x.is_clone) {
+                    return bad("element-differs", w("items obtained through nth / last / skip / step_by on the rest of a chunk differ".into()));
+                }
                 if ba != bu || na != nu {
                     return bad("chunk-boundary-differs", w(format!("adaptor chunk [{}, +{}), underlying [{}, +{})", ba, na, bu, nu)));
                 }
@@ -119,6 +125,7 @@ pub fn eval_c13(case: &Case) -> Outcome {
     let ha = crate::seq::run_seq(case);
     let mut ucase = case.clone();
     ucase.kind = case.kind.underlying();
+    ucase.fault = None;
     let hu = crate::seq::run_seq(&ucase);
     let verdict = compare(&ha, &hu);
     let has = |f: &dyn Fn(&Tag) -> bool| ha.ops.iter().any(|o| f(&o.tag));
